@@ -53,7 +53,7 @@ def run(chk):
         pterms.append("{| pj_m := %s; pj_t := %s; pj_s := %s; pj_rtol := %s; pj_atol := %s; pj_out := %s |}" % (
             iv.ivm_term(ubm.means, T, sigma), cq.nat(t), iv.gs_term(st0), cq.fl(2.0 ** -26), cq.fl(1e-10), cq.vec(w)))
         # ---- training: marginal likelihood never decreases; floor respected; finite
-        upd = bool(i % 2)
+        upd = (i % 4 in (1, 2))
         floor = r.choice([1e-10, 1e-10, 0.3 * float(np.min(ubm.variances))])
         seed = r.randint(0, 10 ** 6)
         K = r.choice([1, 2, 4])
